@@ -10,5 +10,5 @@ CONSTANTS
   Atomic = TRUE
   AllowReindex = TRUE
   Known = {}
-INVARIANTS W_CrashWithOpenBatch W_CaughtUpAfterCrash W_FailedIndexed W_Reindexed W_RefusedBeforeAdmitted
+INVARIANTS WITNESS
 CHECK_DEADLOCK FALSE
